@@ -153,6 +153,12 @@ pub fn virt_clock_gettime(clk: libc::clockid_t, ts: *mut libc::timespec) -> libc
 /// Sleep until virtual MONO >= wake_at (controlled threads), or return at once (free-running).
 pub fn virt_sleep_until(wake_at: u64) {
     if is_free_running() {
+        if REAL_SLEEPS_WHEN_FREE_RUNNING.load(Ordering::SeqCst) {
+            let remaining = wake_at.saturating_sub(MONO_NS.load(Ordering::SeqCst));
+            REAL_SLEEPS_TAKEN.fetch_add(1, Ordering::SeqCst);
+            REAL_SLEEPS_US.fetch_add((remaining / 1000).min(50_000), Ordering::SeqCst);
+            real_sleep_us((remaining / 1000).min(50_000));
+        }
         return;
     }
     note_known_running();
@@ -175,7 +181,21 @@ pub fn virt_sleep_until(wake_at: u64) {
     }
 }
 
+/// While set, a relative sleep of a free-running thread (the event loop's back-off between attempts to write to a full
+/// socket) takes its real time, capped at 50 ms, instead of returning at once: the one scenario that checks what the
+/// loop does while a peer drains its socket slowly needs the back-off to be real.
+pub static REAL_SLEEPS_WHEN_FREE_RUNNING: std::sync::atomic::AtomicBool = std::sync::atomic::AtomicBool::new(false);
+/// how many such sleeps were taken, and their total in microseconds
+pub static REAL_SLEEPS_TAKEN: AtomicU64 = AtomicU64::new(0);
+pub static REAL_SLEEPS_US: AtomicU64 = AtomicU64::new(0);
+
 pub fn virt_nanosleep_rel(ns: u64) {
+    if is_free_running() && REAL_SLEEPS_WHEN_FREE_RUNNING.load(Ordering::SeqCst) {
+        REAL_SLEEPS_TAKEN.fetch_add(1, Ordering::SeqCst);
+        REAL_SLEEPS_US.fetch_add((ns / 1000).min(50_000), Ordering::SeqCst);
+        real_sleep_us((ns / 1000).min(50_000));
+        return;
+    }
     let wake = MONO_NS.load(Ordering::SeqCst).saturating_add(ns);
     virt_sleep_until(wake);
 }
